@@ -420,6 +420,72 @@ def gen_attr_set():
             % (rel, lineno, k, SET_VALIDATE))
 
 
+CALL_SITES = [
+    # (qualname, coq name, the validate call, statements of the loop body allowed before it)
+    ('Entity.__init__', 'create_outcome', 'avdict[attr] = attr.validate(val, obj, from_db=False)', ['val = kwargs.get(attr.name, DEFAULT)']),
+    ('Entity._keyargs_to_avdicts_', 'set_outcome', 'new_val = attr.validate(new_val, obj, from_db=False)',
+     ['attr = get_attr(name)', "if attr is None:\n    throw(TypeError, 'Unknown attribute %r' % name)"]),
+    ('EntityMeta._find_one_', 'get_outcome', 'avdict[attr] = attr.validate(val, None, entity, from_db=False)',
+     ['attr = get_attr(name)', "if attr is None:\n    throw(TypeError, 'Unknown attribute %r' % name)"]),
+    ('Query._apply_kwargs', 'filter_outcome', 'val = attr.validate(val, None, entity, from_db=False)',
+     ['attr = get_attr(attrname)', "if attr is None:\n    throw(AttributeError, 'Entity %s does not have attribute %s' % (entity.__name__, attrname))",
+      "if attr.is_collection:\n    throw(TypeError, '%s attribute %s cannot be used as a keyword argument for filtering' % (attr.__class__.__name__, attr))"]),
+]
+
+
+def gen_call_sites():
+    """Entity(...), obj.set(...), Entity.get/exists/[...] and select/filter keyword arguments: each walks over the given values in a
+    for loop whose body validates the value with attr.validate before anything else uses it."""
+    rel = 'pony/orm/core.py'
+    out = []
+    for q, coqname, call, allowed in CALL_SITES:
+        fdef, src, lineno = load_function(rel, q)
+        found = None
+        for node in ast.walk(fdef):
+            if isinstance(node, ast.For):
+                texts = [ast.unparse(st) for st in node.body]
+                if call in texts: found = texts
+        if found is None: raise TranslateError('%s no longer validates its values with `%s` inside a for loop' % (q, call))
+        for t in found[:found.index(call)]:
+            if t not in allowed:
+                raise TranslateError('%s: a statement before the validate call is not understood: %s' % (q, t.replace('\n', ' ')))
+        out.append('(* %s:%d %s: every value goes through `%s` first *)\nDefinition %s {V : Type} (validate : V -> result V) (v : V) : result V := validate v.\n'
+                   % (rel, lineno, q, call, coqname))
+    return '\n'.join(out)
+
+
+def gen_dec_init():
+    """DecimalConverter.init up to `converter.scale = scale`, for a declaration that gives precision/scale by keyword (or not at all:
+    then the caller passes the defaults read from the source)."""
+    fdef, selfname, lineno = prepare(P, 'DecimalConverter.init', ())
+    body = [st for st in fdef.body if not (isinstance(st, ast.Expr) and isinstance(st.value, ast.Constant))]
+    texts = [ast.unparse(st) for st in body]
+    if '%s.scale = scale' % selfname not in texts: raise TranslateError('DecimalConverter.init no longer assigns converter.scale')
+    body = body[:texts.index('%s.scale = scale' % selfname) + 1]
+    defaults = {}
+    class Spec2(ConvSpec):
+        def call(self2, ex, node, env):
+            src = ast.unparse(node.func)
+            if src == 'len' and len(node.args) == 1:
+                v = ex.eval(node.args[0], env)
+                if isinstance(v, Const) and isinstance(v.v, tuple): return Const(len(v.v))
+            if src == 'kwargs.pop' and len(node.args) == 2 and isinstance(node.args[0], ast.Constant) and node.args[0].value in ('precision', 'scale'):
+                d = ex.eval(node.args[1], env)
+                if not (isinstance(d, Const) and isinstance(d.v, int)): raise TranslateError('default of %r is not an int constant' % node.args[0].value)
+                defaults[node.args[0].value] = d.v
+                return Sym(node.args[0].value, 'Z')
+            return ConvSpec.call(self2, ex, node, env)
+    def fall(ex, env):
+        g = lambda n: env['%s.%s' % (selfname, n)]
+        return '(Ok (%s, %s))' % (ex.zterm(g('precision')), ex.zterm(g('scale')))
+    spec = Spec2(selfname, {}, None, {'attr.args': Const(())}, ret=None, fall=fall)
+    ex = TExec(spec)
+    term = run_body(ex, fdef, selfname, {'kwargs': Sym('<kwargs>', 'opaque')}, body=body)
+    if sorted(defaults) != ['precision', 'scale']: raise TranslateError('DecimalConverter.init: precision/scale options changed')
+    return ('(* %s:%d DecimalConverter.init (precision / scale part; keyword form) *)\nDefinition dec_default_precision : Z := %d.\nDefinition dec_default_scale : Z := %d.\n'
+            'Definition dec_init (precision scale : Z) : result (Z * Z) :=\n%s.\n' % (P, lineno, defaults['precision'], defaults['scale'], term))
+
+
 def generate():
     out = ['(* GENERATED by tools/py2coq/convvalidate.py from /repo on every run -- do not edit *)',
            'Require Import PonyV.Base.PyBase PonyV.Model.C08Base.', '']
@@ -435,6 +501,10 @@ def generate():
     out.append(gen_attr_none())
     out.append(gen_req_validate())
     out.append(gen_attr_set())
+    out.append(gen_call_sites())
+    out.append(gen_dec_init())
+    from py2coq import typedispatch
+    out.append(typedispatch.generate())
     return '\n'.join(out)
 
 
